@@ -139,7 +139,7 @@ pub fn run_random(tr: &mut Trace, run: u64, seed: u64, prof: Profile) -> RunStat
 
     tr.line(json!({"ev": "Reset", "run": run, "seed": seed as i64 & 0x3FFFFFFF, "driver": "hc-random", "profile": match prof {
         Profile::Mixed => "mixed", Profile::Ideal => "ideal", Profile::Blackout => "blackout", Profile::Rate => "rate", Profile::Frag => "frag" },
-        "ideal": ideal, "cfg": p.cfg_json(), "nch": nch, "latency": latency, "cadence": cadence,
+        "ideal": ideal, "honest": p.tamper == 0, "cfg": p.cfg_json(), "nch": nch, "latency": latency, "cadence": cadence,
         "ceil_a": p.cfg.bw[0], "ceil_b": p.cfg.bw[1]}));
 
     let mut st = RunStats { sent: 0, delivered: 0, frames: 0, dropped: 0, dupd: 0, corrupted: 0, quiesced: false, dead: false };
@@ -320,7 +320,7 @@ pub fn run_random(tr: &mut Trace, run: u64, seed: u64, prof: Profile) -> RunStat
             let s = hc.verif_snapshot();
             tr.line(json!({"ev": "Quiesced", "ep": p.ep[e].name, "pending": p.ep[e].last_pending, "bufsize": p.ep[e].last_bufsize.min(2_000_000_000),
                 "t": p.t_ms(), "tail_ms": p.t_ms() - tail_start, "horizon_ms": horizon_ms.min(2_000_000_000), "reached": st.quiesced, "cut": cut,
-                "rate": s.rate.send_rate, "rmode": s.rate.mode, "credit": s.flush_alloc.clamp(-2_000_000_000, 2_000_000_000)}));
+                "rate": s.rate.send_rate, "rmode": s.rate.mode, "credit": s.flush_alloc.clamp(-2_000_000_000, 2_000_000_000), "rx_alloc": s.rx_alloc}));
         }
     }
     tr.line(json!({"ev": "End", "run": run, "dead": p.dead, "calls": p.calls}));
